@@ -447,7 +447,9 @@ Definition step (s : state) (i : nat) : option state :=
           match owner s !! p with
           | Some _ => None
           | None =>
-              Some {| refs := refs s; heap := heap s; owner := <[p := i]> (owner s); nextp := nextp s;
+              (* nextp: pointers come from sess.refs, so p < nextp s and the counter does not move; keeping it
+                 above every locked pointer makes "a new SFid is nobody's" independent of that fact *)
+              Some {| refs := refs s; heap := heap s; owner := <[p := i]> (owner s); nextp := N.max (nextp s) (p + 1);
                       threads := <[i := upd_held th k (p :: t_held th)]> (threads s) |}
           end
       | Unlock p k =>
